@@ -137,6 +137,16 @@ Theorem C18_rules_keep_math_first_to_last_dollar : forall enc_char eu u x,
 Proof. exact encode_keeps_first_to_last_dollar. Qed.
 Print Assumptions C18_rules_keep_math_first_to_last_dollar.
 
+(* the intended behaviour of keep_math (URL rule off): pre $ body x $ post with no other dollar, no line break inside the span
+   and the opening dollar not after a backslash - the span is copied as it is, pre and post are converted character by character *)
+Theorem C18_rules_single_span : forall enc_char pre u x post,
+  (forall c, In c pre -> ceq c c_dollar = false) -> ceq (last pre c_sp) c_bs = false ->
+  (forall c, In c u -> ceq c c_nl = false) -> ceq x c_bs = false -> (forall c, In c post -> ceq c c_dollar = false) ->
+  encode enc_char true false (pre ++ c_dollar :: u ++ [x; c_dollar] ++ post)
+  = flat_map enc_char pre ++ (c_dollar :: u ++ [x; c_dollar]) ++ flat_map enc_char post.
+Proof. exact encode_single_span. Qed.
+Print Assumptions C18_rules_single_span.
+
 (* enclose_urls (root cause of K6): a matched URL is a prefix of the remaining text, and it is written between \url{ and }
    exactly as it is - no character of it is converted - after which conversion resumes behind it *)
 Theorem C18_rules_url_raw : forall enc_char km s m pb, url_match s = Some m ->
